@@ -542,16 +542,20 @@ fn handle(st: &Shared, host: &'static str, conn: u64, idx: usize, m: Msg) -> Ans
             match spec {
                 Some(s) => {
                     let head_only = m.method() == "HEAD";
-                    let bytes = if s.close_delimited {
+                    let bytes = if s.status == 204 || s.status == 304 {
+                        // (these never carry a body, whatever framing the script asked for)
+                        http::build_response(s.status, http::reason(s.status), &s.headers, Body::None, head_only)
+                    } else if s.close_delimited {
                         let mut b = http::build_response(s.status, http::reason(s.status), &s.headers, Body::None, head_only);
                         if !head_only {
                             b.extend_from_slice(&s.body);
                         }
                         b
+                    } else if s.status == 204 || s.status == 304 {
+                        // (these never carry a body, whatever framing the script asked for)
+                        http::build_response(s.status, http::reason(s.status), &s.headers, Body::None, head_only)
                     } else if let Some(sz) = &s.chunked {
                         http::build_response(s.status, http::reason(s.status), &s.headers, Body::Chunked(&s.body, sz), head_only)
-                    } else if s.status == 204 || s.status == 304 {
-                        http::build_response(s.status, http::reason(s.status), &s.headers, Body::None, head_only)
                     } else {
                         http::build_response(s.status, http::reason(s.status), &s.headers, Body::Len(&s.body), head_only)
                     };
@@ -609,7 +613,10 @@ fn handle(st: &Shared, host: &'static str, conn: u64, idx: usize, m: Msg) -> Ans
         Some(HostFault::KeyDoc(_)) => {}
         None => {}
     }
-    if kind == "status" && !faulted && ans.status == 200 {
+    // a status answer counts as served when nothing stands between it and the agent: no scripted host fault and no
+    // connection-level fault attached to the connection that carries it
+    let conn_clean = vrt::net::conn_info(conn).map(|c| c.faults.is_empty()).unwrap_or(true);
+    if kind == "status" && !faulted && ans.status == 200 && conn_clean {
         g.status_ok += 1;
         let v = (g.doc_version, g.status_ok);
         g.served_versions.push(v);
